@@ -558,6 +558,9 @@ class Program:
         if isinstance(expr, ast.Attribute):
             if isinstance(expr.value, ast.Name) and expr.value.id == "self" and cls is not None:
                 r = self.lookup_classattr(cls, expr.attr)
+                roles = getattr(self, "_field_roles", None)
+                if r and roles is not None and expr.attr in roles["mutable"]:
+                    raise NotConst()      # a class-level default of a field that instances assign
                 if r:
                     return self.fold(r[1], r[0].module, r[0], None, _depth + 1, True)
             raise NotConst()
